@@ -26,6 +26,10 @@ cases={
 "dupalias": (ctl("dupalias","// @Method(GET)\n// @Route(/items/{id})\n// @Path(first, { name: \"id\" })\n// @Path(second, { name: \"id\" })\nfunc (c *C) M(first string, second string) error { return nil }\n"),"reject"),
 "swapalias": (ctl("swapalias","// @Method(GET)\n// @Route(/swap/{a}/{b})\n// @Path(a, { name: \"b\" })\n// @Path(b, { name: \"a\" })\nfunc (c *C) M(a string, b string) error { return nil }\n"),"accept"),
 "blockdoc": ("package blockdoc\n\nimport \"github.com/gopher-fleece/runtime\"\n\n/*\nA controller documented with a block comment and no tag annotation at all,\nspread over several lines so that its end lies on a later line than its start.\n@Route(/c)\n*/\ntype C struct {\n\truntime.GleeceController\n}\n\n// @Method(GET)\n// @Route(/x)\n// @Security(schemeA, { scopes: [\"read\"] })\nfunc (c *C) M() error { return nil }\n","accept"),
+"shapefunc": (ctl("shapefunc","type B struct {\n\tName string\n\tOnDone func(id string)\n}\n\n// @Method(POST)\n// @Route(/x)\n// @Body(b)\nfunc (c *C) M(b B) error { return nil }\n"),"any"),
+"shapechan": (ctl("shapechan","type B struct {\n\tName string\n\tEvents chan int\n}\n\n// @Method(POST)\n// @Route(/x)\n// @Body(b)\nfunc (c *C) M(b B) error { return nil }\n"),"any"),
+"shaperecursive": (ctl("shaperecursive","type N struct {\n\tName string\n\tNext *N\n\tKids []N\n\tIndex map[string][]N\n}\n\n// @Method(POST)\n// @Route(/x)\n// @Body(b)\nfunc (c *C) M(b N) (N, error) { return b, nil }\n"),"any"),
+"shapeiface": (ctl("shapeiface","type B struct {\n\tAny interface{}\n\tFn func()\n\tArr [3]int\n\tPtr **string\n}\n\n// @Method(POST)\n// @Route(/x)\n// @Body(b)\nfunc (c *C) M(b B) error { return nil }\n"),"any"),
 "warnonly": (ctl("warnonly","// @Method(GET)\n// @Route(/x)\nfunc (c *C) M() error { return nil }\n\n// @Method(GET)\n// @Route(/x)\nfunc (c *C) M2() error { return nil }\n"),"accept"),
 }
 for n,(src,exp) in cases.items():
